@@ -8,6 +8,7 @@ import (
 	"go/token"
 	"go/types"
 	"os"
+	"runtime"
 	"sort"
 	"strings"
 	"time"
@@ -18,6 +19,8 @@ import (
 	"golang.org/x/tools/go/packages"
 	"golang.org/x/tools/go/ssa"
 	"golang.org/x/tools/go/ssa/ssautil"
+
+	"xpcheck/internal/norm"
 )
 
 // Module is the import path prefix of the analysed repository.
@@ -33,6 +36,12 @@ type Program struct {
 	SSAPkgs  map[string]*ssa.Package
 	LoadTime time.Duration
 	Overlay  map[string][]byte
+	// NormNotes records what the normaliser inlined or left alone; NormOverlay
+	// holds the normalised sources that were analysed instead of the files.
+	NormNotes   []string
+	NormOverlay map[string][]byte
+	// Dead holds the helpers (types.Func full names) whose every use was inlined.
+	Dead map[string]bool
 
 	cg      *callgraph.Graph
 	allFns  map[*ssa.Function]bool
@@ -44,6 +53,8 @@ type Config struct {
 	Dir      string
 	Patterns []string
 	Overlay  map[string][]byte
+	// NoNormalize analyses the tree exactly as written (no helper inlining).
+	NoNormalize bool
 }
 
 // DefaultPatterns are the three root patterns of the quick tier.
@@ -68,12 +79,77 @@ func Load(cfg Config) (*Program, error) {
 		Env:     env,
 		Overlay: cfg.Overlay,
 	}
-	pkgs, err := packages.Load(pc, cfg.Patterns...)
+	pkgs, err := loadPkgs(pc, cfg.Patterns)
+	if err != nil {
+		return nil, err
+	}
+	var notes []string
+	var normOverlay map[string][]byte
+	var dead []string
+	if !cfg.NoNormalize {
+		// normal form: helpers the rules do not know are inlined into their callers
+		res := norm.Plan(pkgs, norm.Known(), Module)
+		notes = append(notes, res.Skipped...)
+		if len(res.Overlay) > 0 {
+			ov := map[string][]byte{}
+			for k, v := range cfg.Overlay {
+				ov[k] = v
+			}
+			for k, v := range res.Overlay {
+				ov[k] = v
+			}
+			pkgs = nil
+			runtime.GC()
+			fset = token.NewFileSet()
+			pc2 := *pc
+			pc2.Fset = fset
+			pc2.Overlay = ov
+			pkgs2, err2 := loadPkgs(&pc2, cfg.Patterns)
+			if err2 != nil {
+				// the normaliser must never make a compiling tree undecidable: analyse the tree as it is
+				if d := os.Getenv("XPCHECK_DEBUG_NORM"); d != "" {
+					for f, b := range res.Overlay {
+						os.WriteFile(d+"/"+strings.ReplaceAll(strings.TrimPrefix(f, cfg.Dir+"/"), "/", "__"), b, 0o644)
+					}
+				}
+				notes = append(notes, "normal form rejected by the type checker, analysing the tree as written: "+err2.Error())
+				fset = token.NewFileSet()
+				pc.Fset = fset
+				if pkgs, err = loadPkgs(pc, cfg.Patterns); err != nil {
+					return nil, err
+				}
+			} else {
+				pkgs = pkgs2
+				normOverlay = res.Overlay
+				dead = norm.DeadHelpers(pkgs, norm.Known(), Module)
+				for _, s := range res.Inlined {
+					notes = append(notes, "inlined "+s)
+				}
+			}
+		}
+	}
+	p := &Program{Dir: cfg.Dir, Fset: fset, Roots: pkgs, All: map[string]*packages.Package{}, SSAPkgs: map[string]*ssa.Package{}, Overlay: cfg.Overlay, NormNotes: notes, NormOverlay: normOverlay, Dead: map[string]bool{}}
+	for _, d := range dead {
+		p.Dead[d] = true
+	}
+	packages.Visit(pkgs, nil, func(pp *packages.Package) { p.All[pp.PkgPath] = pp })
+	prog, _ := ssautil.AllPackages(pkgs, ssa.InstantiateGenerics)
+	prog.Build()
+	p.SSA = prog
+	for _, sp := range prog.AllPackages() {
+		p.SSAPkgs[sp.Pkg.Path()] = sp
+	}
+	p.LoadTime = time.Since(start)
+	return p, nil
+}
+
+func loadPkgs(pc *packages.Config, patterns []string) ([]*packages.Package, error) {
+	pkgs, err := packages.Load(pc, patterns...)
 	if err != nil {
 		return nil, fmt.Errorf("packages.Load: %w", err)
 	}
 	if len(pkgs) == 0 {
-		return nil, fmt.Errorf("no packages matched %v in %s", cfg.Patterns, cfg.Dir)
+		return nil, fmt.Errorf("no packages matched %v in %s", patterns, pc.Dir)
 	}
 	var errs []string
 	packages.Visit(pkgs, nil, func(p *packages.Package) {
@@ -88,16 +164,7 @@ func Load(cfg Config) (*Program, error) {
 		}
 		return nil, fmt.Errorf("type/load errors: %s", strings.Join(errs, "; "))
 	}
-	p := &Program{Dir: cfg.Dir, Fset: fset, Roots: pkgs, All: map[string]*packages.Package{}, SSAPkgs: map[string]*ssa.Package{}, Overlay: cfg.Overlay}
-	packages.Visit(pkgs, nil, func(pp *packages.Package) { p.All[pp.PkgPath] = pp })
-	prog, _ := ssautil.AllPackages(pkgs, ssa.InstantiateGenerics)
-	prog.Build()
-	p.SSA = prog
-	for _, sp := range prog.AllPackages() {
-		p.SSAPkgs[sp.Pkg.Path()] = sp
-	}
-	p.LoadTime = time.Since(start)
-	return p, nil
+	return pkgs, nil
 }
 
 // RootCount is the number of root packages loaded from the repository.
@@ -216,6 +283,21 @@ func InRepo(fn *ssa.Function) bool {
 	return false
 }
 
+// IsDead reports whether fn (or the function it is nested in) is a helper whose
+// every use the normaliser inlined: its body is analysed inside its callers.
+func (p *Program) IsDead(fn *ssa.Function) bool {
+	if len(p.Dead) == 0 {
+		return false
+	}
+	for fn.Parent() != nil {
+		fn = fn.Parent()
+	}
+	if o, ok := fn.Object().(*types.Func); ok {
+		return p.Dead[o.FullName()]
+	}
+	return false
+}
+
 // AllFunctions returns every function of the program (including anonymous).
 func (p *Program) AllFunctions() map[*ssa.Function]bool {
 	if p.allFns == nil {
@@ -229,7 +311,7 @@ func (p *Program) AllFunctions() map[*ssa.Function]bool {
 func (p *Program) RepoFunctions() []*ssa.Function {
 	var out []*ssa.Function
 	for fn := range p.AllFunctions() {
-		if fn.Blocks != nil && fn.Synthetic == "" && InRepo(fn) {
+		if fn.Blocks != nil && fn.Synthetic == "" && InRepo(fn) && !p.IsDead(fn) {
 			out = append(out, fn)
 		}
 	}
@@ -252,7 +334,7 @@ func (p *Program) PkgFunctions(pkg string) []*ssa.Function {
 		for root.Parent() != nil {
 			root = root.Parent()
 		}
-		if root.Pkg == sp {
+		if root.Pkg == sp && !p.IsDead(fn) {
 			out = append(out, fn)
 		}
 	}
